@@ -158,6 +158,8 @@ def blocks(tier):
             rk = reduced_kinds(task)
             for c in chunk(list(range(len(rk))), 8):
                 out.append({"space": "clips3", "task": task, "k": 2, "n": 3, "tier": tier, "first": c})
+    # a vocabulary of 300 tags (more classes than a byte can index) with true classes on both sides of 255
+    out.append({"space": "bigvocab", "task": "all", "k": BIG_K, "tier": tier})
     for task in ("sound_event_classification", "sound_event_detection"):
         kinds = event_kinds(task, tier)
         for c in chunk(list(range(len(kinds))), 16):
@@ -170,8 +172,31 @@ def blocks(tier):
     return out
 
 
+BIG_K = 300
+
+
+def big_items():
+    """Four items over the 300-tag vocabulary: true classes 299, 256, 255, 3, each predicted with 0.5 on its own class and 0.25 on
+    class 0 (sparse vectors written as full lists)."""
+    out = []
+    for y in (299, 256, 255, 3):
+        v = [0.0] * BIG_K
+        v[y] = 0.5
+        v[0] = 0.25
+        out.append([[y], v])
+    return out
+
+
 def run_block(block, rec):
     sp, task, k = block["space"], block["task"], block["k"]
+    if sp == "bigvocab":
+        items = big_items()
+        for t in ("clip_classification", "clip_multilabel_classification"):
+            rec.add(run_case({"task": t, "k": BIG_K, "clips": [[it] for it in items]}))
+        for t in ("sound_event_classification", "sound_event_detection"):
+            rec.add(run_case({"task": t, "k": BIG_K, "clips": [items[:2], items[2:]], "extra": [0, 0]}))
+            rec.add(run_case({"task": t, "k": BIG_K, "clips": [items], "extra": [0, 0]}))
+        return
     if sp in ("clips", "clips3"):
         kinds = item_kinds(task, k, block["tier"]) if sp == "clips" else reduced_kinds(task)
         for f in block["first"]:
